@@ -271,3 +271,16 @@ def F5w():
     h, r, exc = run_h1(app, sc)
     got500 = (h.wire or b"").startswith(b"HTTP/1.1 500")
     return ((not got500) and "AttributeError" in names(exc)), f"bytes to the client: {bytes(h.wire[:20])!r}; exception escaping: {names(exc)}"
+
+
+def F4j():
+    """WebSocket upgrade whose Sec-WebSocket-Protocol value has a byte over 0x7f: wsproto's
+    split_comma_header raises UnicodeDecodeError in Handshake.__init__, out of the connection handler"""
+    async def app(scope, receive, send):
+        pass
+
+    async def sc(h):
+        await h.feed(UPGRADE.replace(b"\r\n\r\n", b"\r\nSec-WebSocket-Protocol: caf\xe9\r\n\r\n"))
+        return True
+    h, r, exc = run_h1(app, sc)
+    return ("UnicodeDecodeError" in names(exc)), f"exception escaping handle(): {names(exc)}"
